@@ -367,6 +367,7 @@ type delivery struct {
 	inCache    bool
 	mismatch   bool
 	inDownload bool // the (partial or unmoved) file is in the download store
+	created    bool // the event created the control it answered from (a request's own Torrent object)
 }
 
 type caseRun struct {
@@ -514,7 +515,7 @@ func (cr *caseRun) setup() error {
 			if released || immediate {
 				st := cr.lp.Load().Stat(b, true)
 				cr.mu.Lock()
-				cr.deliveries[i] = append(cr.deliveries[i], delivery{cr.curStamp, info.Name, st.InCache, st.Mismatch, st.InDownload})
+				cr.deliveries[i] = append(cr.deliveries[i], delivery{cr.curStamp, info.Name, st.InCache, st.Mismatch, st.InDownload, immediate && (!pre.Present || pre.Ref != post.Ref)})
 				cr.mu.Unlock()
 			}
 			if pre.Present && !pre.Complete && (!post.Present || post.Ref != pre.Ref) {
@@ -976,7 +977,7 @@ func (cr *caseRun) execStep(idx int, s step) {
 		// replaced the complete control by one built on a request's stale,
 		// incomplete Torrent object; that control can only time out. (Checked on
 		// two consecutive polls: a logical state, not a delay.)
-		replaced, seen := false, 0
+		replaced, seen, lost := false, 0, 0
 		deadline := time.Now().Add(watchdog)
 		finished := false
 		for !finished && !replaced && time.Now().Before(deadline) {
@@ -1000,6 +1001,22 @@ func (cr *caseRun) execStep(idx int, s step) {
 				seen = 0
 			}
 			replaced = seen >= 2
+			// Fourth ending: the conn this step started with is gone, nothing is
+			// parked and nothing re-announces under the mock clock — no progress is
+			// possible any more (again a state seen on consecutive polls, no verdict).
+			if w := cr.wgate.Count(wname); nc == 0 && w.Parked == 0 && w.Entered == w.Sent && !cr.L.InCache(cr.blobs[s.B]) {
+				lost++
+			} else {
+				lost = 0
+			}
+			if lost >= 4 {
+				break
+			}
+		}
+		if lost >= 4 && !finished && !replaced {
+			cr.run.Count("fill_ended_by_lost_conn", 1)
+			cr.executed = append(cr.executed, "fill-failed("+s.String()+":conn-lost)")
+			return
 		}
 		if replaced {
 			cr.run.Count("fill_ended_by_control_replaced_with_stale_incomplete_torrent", 1)
@@ -1467,7 +1484,8 @@ early:
 		// return time. A deletion by a later event stays tolerated.
 		justified := c.endPresent
 		lastDelivery, lastDeliveryStamp := "", int64(-1) // the last candidate before the return is the one that answered this call
-		lastUnmoved := false
+		lastUnmoved, lastCreated := false, false
+		staleObject, staleObjectRecreated := false, false
 		cr.mu.Lock()
 		for _, d := range cr.deliveries[c.b] {
 			if d.stamp < c.startStamp || d.stamp > c.endStamp {
@@ -1478,12 +1496,19 @@ early:
 			}
 			lastDelivery, lastDeliveryStamp = d.name, d.stamp
 			lastUnmoved = d.inDownload && !d.inCache
+			lastCreated = d.created
+			if d.name == rig.EvNewTorrent && d.created && !d.inCache {
+				// a request answered at once from its own (stale) Torrent object: the
+				// most specific explanation, whatever else falls into the interval
+				staleObject = true
+				staleObjectRecreated = staleObjectRecreated || d.inDownload
+			}
 		}
 		// A stale completion notice explains the result only when no event that
 		// can have answered the call lies in its interval (a stale notice which
 		// kraken ignores may well follow the real answer before the call stamps
 		// its return).
-		_ = lastDeliveryStamp
+		_, _ = lastDeliveryStamp, lastCreated
 		staleInCall := false
 		for _, s := range cr.stale[c.b] {
 			if s >= c.startStamp && s <= c.endStamp && lastDelivery == "" {
@@ -1495,6 +1520,11 @@ early:
 			sig := "success-without-blob/other"
 			if staleInCall {
 				sig = "success-without-blob/stale-completion-notice-applied-to-new-torrent"
+			} else if staleObject && staleObjectRecreated {
+				// ... and meanwhile another request re-created the (empty) archive entry
+				sig = "success-without-blob/request-answered-from-stale-complete-torrent-object/archive-entry-recreated"
+			} else if staleObject {
+				sig = "success-without-blob/request-answered-from-stale-complete-torrent-object"
 			} else if lastUnmoved {
 				// the torrent counted as complete while its file had not reached the cache
 				sig = "success-without-blob/complete-reported-while-file-still-in-download-store"
@@ -1551,18 +1581,19 @@ func (cr *caseRun) launch(stepIdx, b int) *call {
 		c.startStamp = cr.next()
 		c.startPresent = b >= 0 && L.InCache(blob)
 		c.err = L.Sched.Download(rig.Namespace, blob.Digest)
+		ret := cr.next() // the answering event was applied before this instant
 		if b >= 0 {
 			st := L.Stat(blob, c.err == nil)
 			c.endPresent, c.endExact, c.mismatch = st.InCache, !st.Mismatch, st.MismatchInfo
 		}
-		c.endStamp = cr.next()
+		c.endStamp = ret
 		close(c.done)
 	}()
 	return c
 }
 
 func stress(t *testing.T, run *ev.Run, base string) {
-	rounds := run.N(0, 800)
+	rounds := run.N(0, 500)
 	const workers = 8
 	var wg sync.WaitGroup
 	for wi := 0; wi < workers; wi++ {
@@ -1665,7 +1696,7 @@ func TestC17(t *testing.T) {
 	run.Assume("the in-process seeder, the stub tracker (static handout + metainfo) and the mock clock behave as their real counterparts")
 	run.Assume("holding the send of an event before it reaches the unbuffered loop channel is a schedule the Go runtime may produce")
 
-	n := run.N(160, 12000)
+	n := run.N(160, 8000)
 	if os.Getenv("VERIF_C17_STRESS_ONLY") != "" { // development aid
 		n = 0
 	}
